@@ -2,5 +2,5 @@
 Require Import GeosV.Lib.GeomDefs GeosV.Lib.LocateDefs GeosV.Lib.ValidDefs GeosV.C03.OverlayDefs GeosV.C04.PrecDefs GeosV.C04.PrecRun.
 Require Extraction.
 Require Import ExtrOcamlBasic.
-Extraction "xc04.ml" mp_bits mp_bits_hand pm_bits grid_scale_bits reported_grid_bits hp_run hp_run_half prec_check prec_check_nv prec_verdict
+Extraction "xc04.ml" mp_bits mp_bits_hand pm_bits grid_scale_bits reported_grid_bits hp_run hp_run_half hp_pt prec_check prec_check_nv prec_verdict
   near_geom mem valid_geom valid_detail rule_code op_of_code pointwise shape_of dimension is_empty.
